@@ -110,6 +110,9 @@ impl<Error: Send + 'static> DecodeScheduler<Error> {
 					#[cfg(kira_verif)]
 					crate::verif::yield_point("decoder.error.flag.store");
 					self.shared.encountered_error.store(true, Ordering::SeqCst);
+					// the sound stops as soon as the audio thread sees the flag;
+					// decoding on would only spin on a broken stream
+					break;
 				}
 			}
 		});
@@ -118,6 +121,12 @@ impl<Error: Send + 'static> DecodeScheduler<Error> {
 	pub fn run(&mut self) -> Result<NextStep, Error> {
 		// if the sound was manually stopped, end the thread
 		if self.shared.state() == PlaybackState::Stopped {
+			return Ok(NextStep::End);
+		}
+		// if the sound itself is gone (rejected by a full track, or dropped
+		// together with its track or the manager) nobody will ever read what
+		// we decode or tell us to stop: end the thread
+		if self.frame_producer.is_abandoned() {
 			return Ok(NextStep::End);
 		}
 		// if the frame ringbuffer is full, sleep for a bit
